@@ -80,7 +80,7 @@ fn expect_absent<S: BlobStore>(s: &S, id: u32) {
 zv_harness! {
     name: c03_mem_put_remove_put,
     prop: "C03",
-    tier: thorough,
+    tier: probe,
     unwind: 7,
     stubs: [
         alloc::fmt::format => crate::common::stubs::fmt_format,
@@ -163,7 +163,7 @@ zv_harness! {
 zv_harness! {
     name: c03_mem_put_put_remove,
     prop: "C03",
-    tier: thorough,
+    tier: probe,
     unwind: 5,
     stubs: [
         alloc::fmt::format => crate::common::stubs::fmt_format,
@@ -213,7 +213,7 @@ zv_harness! {
 zv_harness! {
     name: c03_zerolen_hist,
     prop: "C03",
-    tier: quick,
+    tier: probe,
     unwind: 8,
     stubs: [alloc::fmt::format => crate::common::stubs::fmt_format],
     targets: "ZeroLengthBlobStore::new/finish, put, get, remove, contains, size, len",
@@ -309,11 +309,11 @@ macro_rules! c03_mixedlen {
         }
     };
 }
-c03_mixedlen!(c03_mixedlen_r2_l1_2_f1, thorough, 18, 1, 2, 9, 1);
-c03_mixedlen!(c03_mixedlen_r3_l1_0_2_f1, thorough, 18, 1, 0, 2, 1);
-c03_mixedlen!(c03_mixedlen_r3_l0_2_0_f0, thorough, 18, 0, 2, 0, 0);
-c03_mixedlen!(c03_mixedlen_r3_l2_2_2_f2, thorough, 18, 2, 2, 2, 2);
-c03_mixedlen!(c03_mixedlen_r3_l2_1_2_f5, thorough, 18, 2, 1, 2, 5);
+c03_mixedlen!(c03_mixedlen_r2_l1_2_f1, probe, 18, 1, 2, 9, 1);
+c03_mixedlen!(c03_mixedlen_r3_l1_0_2_f1, probe, 18, 1, 0, 2, 1);
+c03_mixedlen!(c03_mixedlen_r3_l0_2_0_f0, probe, 18, 0, 2, 0, 0);
+c03_mixedlen!(c03_mixedlen_r3_l2_2_2_f2, probe, 18, 2, 2, 2, 2);
+c03_mixedlen!(c03_mixedlen_r3_l2_1_2_f5, probe, 18, 2, 1, 2, 5);
 
 macro_rules! c03_mixedlen_auto {
     ($name:ident, $tier:ident, $unwind:literal, $l0:literal, $l1:literal, $l2:literal) => {
@@ -347,7 +347,7 @@ macro_rules! c03_mixedlen_auto {
         }
     };
 }
-c03_mixedlen_auto!(c03_mixedlen_auto_r3_l1_2_1, thorough, 18, 1, 2, 1);
+c03_mixedlen_auto!(c03_mixedlen_auto_r3_l1_2_1, probe, 18, 1, 2, 1);
 
 macro_rules! c03_simplezip {
     ($name:ident, $tier:ident, $unwind:literal, $l0:literal, $l1:literal, $l2:literal) => {
@@ -382,8 +382,8 @@ macro_rules! c03_simplezip {
         }
     };
 }
-c03_simplezip!(c03_simplezip_r2_l1_1, thorough, 18, 1, 1, 9);
-c03_simplezip!(c03_simplezip_r3_l1_2_0, thorough, 18, 1, 2, 0);
+c03_simplezip!(c03_simplezip_r2_l1_1, probe, 18, 1, 1, 9);
+c03_simplezip!(c03_simplezip_r3_l1_2_0, probe, 18, 1, 2, 0);
 
 fn zo_config(checksum_level: u8) -> ZipOffsetBlobStoreConfig {
     ZipOffsetBlobStoreConfig {
@@ -444,14 +444,14 @@ macro_rules! c03_zipoffset {
         }
     };
 }
-c03_zipoffset!(c03_zipoffset_r2_l1_2_ck0, thorough, 6, 1, 2, 9, 0);
-c03_zipoffset!(c03_zipoffset_r2_l1_0_ck0, thorough, 6, 1, 0, 9, 0);
-c03_zipoffset!(c03_zipoffset_r3_l1_0_2_ck2, thorough, 6, 1, 0, 2, 2);
+c03_zipoffset!(c03_zipoffset_r2_l1_2_ck0, probe, 6, 1, 2, 9, 0);
+c03_zipoffset!(c03_zipoffset_r2_l1_0_ck0, probe, 6, 1, 0, 9, 0);
+c03_zipoffset!(c03_zipoffset_r3_l1_0_2_ck2, probe, 6, 1, 0, 2, 2);
 
 zv_harness! {
     name: c03_zipoffset_saveload_r2,
     prop: "C03",
-    tier: thorough,
+    tier: probe,
     unwind: 22,
     stubs: [
         alloc::fmt::format => crate::common::stubs::fmt_format,
@@ -512,7 +512,7 @@ zv_harness! {
 zv_harness! {
     name: c03_zipoffset_r1_l1,
     prop: "C03",
-    tier: thorough,
+    tier: probe,
     unwind: 6,
     stubs: [
         alloc::fmt::format => crate::common::stubs::fmt_format,
